@@ -281,6 +281,11 @@ pub fn check_temporaries(c: &TempCase, which: usize) -> Verdict {
                 } else {
                     model::minimiser_runs(&s.0, c.w, c.m).iter().map(|x| vec![x.0, x.1 as u64, x.2 as u64]).collect()
                 };
+                let recount = r["ok"][i][2 + which].as_u64();
+                if recount != Some(want.len() as u64) {
+                    v.fail("python-temporaries-differ", format!("string {} of {} equal-length temporaries ({} characters): the {} iterator yields {:?} items when only counted, the model has {}", i, c.seqs.len(), s.0.len(), ["k-mer", "minimiser"][which], recount, want.len()));
+                    return v;
+                }
                 if got != want {
                     let p = got.iter().zip(want.iter()).position(|(a, b)| a != b).unwrap_or(got.len().min(want.len()));
                     v.fail("python-temporaries-differ", format!("string {} of {} equal-length temporaries ({} characters): the {} iterator yields {} items, the model {}; first difference at {}", i, c.seqs.len(), s.0.len(), ["k-mer", "minimiser"][which], got.len(), want.len(), p));
